@@ -67,7 +67,7 @@ class Gen:
         if self.o.get("nonexc"):
             pool += list(NONEXC_KINDS) * 2
         if self.o.get("multi"):
-            pool += ["multi"] * 2
+            pool += ["multi"] * 4
         k = self.draw(st.sampled_from(pool))
         return k
 
@@ -75,7 +75,7 @@ class Gen:
         k = self.kind()
         a = {"a": "raise", "i": self.nid(), "kind": k}
         if k == "multi":
-            if self.multi_ids and self.draw(st.integers(0, 3)) == 0:
+            if self.multi_ids and self.draw(st.integers(0, 2)) == 0:
                 a["kind"] = "again"           # the very same MultipleExceptions instance raised once more
                 a["ref"] = self.draw(st.sampled_from(self.multi_ids))
             else:
@@ -216,6 +216,14 @@ def programs(draw, **opts):
             "handlers": [], "handlers_when": "init"}
     if prog["setUp_pre"] and prog["setUp_pre"][-1]["a"] == "raise":
         prog["setUp_post"] = []
+    if g.multi_ids and draw(st.integers(0, 2)) == 0:
+        # the very same MultipleExceptions instance is raised once more by something that runs later
+        # (tearDown, or a cleanup registered earlier)
+        spots = [prog["tearDown_post"]] + [a["body"] for st_ in ("setUp_pre", "setUp_post", "body") for a in prog[st_] if a["a"] == "cleanup"]
+        spot = draw(st.sampled_from(spots))
+        if not (spot and spot[-1]["a"] == "raise"):
+            spot.append({"a": "raise", "i": g.nid(), "kind": "again", "ref": draw(st.sampled_from(g.multi_ids))})
+            g.raises += 1
     if decor == "expectedFailure":
         # @unittest.expectedFailure wraps the test method only: keep its body simple
         k = draw(st.sampled_from([None, "fail", "error", "skip"] + (["kbi", "sysexit", "base"] if opts.get("nonexc") else [])))
